@@ -415,6 +415,33 @@ theorem runAll_waitChan : ∀ (fuel : Nat) (s : State), WaitChan s → WaitChan 
       have hq' : WaitChan { s with runq := q } := h.frame (CFrame.of_eq rfl rfl)
       exact runAll_waitChan fuel _ (runTask_waitChan hq' i)
 
+theorem abortTask_waitChan {s : State} (h : WaitChan s) (i : Nat) : WaitChan (abortTask s i) := by
+  unfold abortTask
+  cases ht : taskOf s i with
+  | none => exact h
+  | some t =>
+    cases t with
+    | whenReady c tk hp => exact h.frame (CFrame.of_eq rfl rfl)
+    | delayed r =>
+      simp only []
+      cases hco : s.co r with
+      | none => exact h.frame (CFrame.of_eq rfl rfl)
+      | some c =>
+        simp only []
+        have f3 : CFrame none (removeTask s i) s := CFrame.of_eq rfl rfl
+        have f4 := (cancelIfOwner_cframe none (removeTask s i) c).trans f3
+        have h4 := h.frame f4
+        have hr4 : (cancelIfOwner (removeTask s i) c).co r = some c := by rw [cancelIfOwner_co]; exact hco
+        exact h4.frame (CFrame.setCoSame _ r c _ hr4 (fun hp => hp))
+
+theorem abortAll_waitChan : ∀ (fuel : Nat) (s : State), WaitChan s → WaitChan (abortAll fuel s)
+  | 0, _, h => h
+  | fuel + 1, s, h => by
+    simp only [abortAll]
+    split
+    · exact h.frame (CFrame.of_eq rfl rfl)
+    · exact abortAll_waitChan fuel _ (abortTask_waitChan h _)
+
 theorem step_waitChan (s : State) (op : Op) (h : WaitChan s) : WaitChan (step s op).1 := by
   cases op with
   | issue r k mux =>
@@ -489,6 +516,7 @@ theorem step_waitChan (s : State) (op : Op) (h : WaitChan s) : WaitChan (step s 
   | run => exact runAll_waitChan _ s h
   | tick ms => exact h.frame (CFrame.of_eq rfl rfl)
   | mark => exact h
+  | shutdown => exact abortAll_waitChan _ s h
 
 theorem run_waitChan : ∀ (ops : List Op) (s : State), WaitChan s → WaitChan (run s ops).1
   | [], _, h => h
